@@ -358,6 +358,10 @@ func executeGeminiRaw(ctx context.Context, sysPrompt, userMsg, apiKey, model, ap
 			continue
 		}
 
+		// Same rule as the OpenAI path: only text the model itself produced counts as an answer.
+		if len(result.Candidates) == 0 || result.Candidates[0].Content == nil || result.Candidates[0].Content.Role != genai.RoleModel {
+			return "", fmt.Errorf("gemini: response carries no model-role content")
+		}
 		return result.Text(), nil
 	}
 	return "", fmt.Errorf("gemini retries exhausted: %w", lastErr)
